@@ -8,6 +8,8 @@ SCHEMA = {
     'PolynomialCalibrator': {'coefficients': ('list', ('rec', 'PolynomialCoefficient'))},
     'SplinePoint': {'raw': 'real', 'calibrated': 'real'},
     'SplineCalibrator': {'points': ('list', ('rec', 'SplinePoint')), 'order': 'int', 'extrapolate': 'bool'},
+    'ContextCalibrator': {'match_criteria': ('list', ('rec', ['Comparison', 'BooleanExpression'])),
+                          'calibrator': ('rec', ['SplineCalibrator', 'PolynomialCalibrator'])},
 }
 NATIVE_ENV = {k: getattr(R, k) for k in dir(R) if not k.startswith('_')}
 
@@ -128,23 +130,17 @@ CONTRACTS = [
         params={'self': ('rec', 'SplineCalibrator')},
         variants={'int': {'params': {'uncalibrated_value': 'int'}}, 'float': {'params': {'uncalibrated_value': 'real'}}},
         returns='real',
-        requires=[f'len({P_}) >= 1', 'self.order == 0 or self.order == 1', f'self.order == 0 or len({P_}) >= 2', SORTED],
+        requires=['spline_ok(self)'],
         ensures={
-            # proved from the two interpolation contracts (dispatch on the order)
-            'order0_inside': ('implies(self.order == 0 and ' + INSIDE.replace('query_point', 'uncalibrated_value') + ', ' +
-                              f'exists(lambda i: at({P_}, i).raw <= toreal(uncalibrated_value) and '
-                              f'(i == len({P_}) - 1 or toreal(uncalibrated_value) < at({P_}, i + 1).raw) and '
-                              f'result == at({P_}, i).calibrated, 0, len({P_})))', ['__proof__']),
-            'order1_inside': ('implies(self.order == 1 and ' + INSIDE.replace('query_point', 'uncalibrated_value') + ', ' +
-                              f'exists(lambda i: at({P_}, i).raw <= toreal(uncalibrated_value) and '
-                              f'((i == len({P_}) - 1 and result == at({P_}, i).calibrated) or '
-                              f' (i < len({P_}) - 1 and toreal(uncalibrated_value) < at({P_}, i + 1).raw and '
-                              f'  result == chord(at({P_}, i), at({P_}, i + 1), toreal(uncalibrated_value)))), 0, len({P_})))', ['__proof__']),
+            # proved from the two interpolation contracts (dispatch on the order): the relation clients use
+            'relation': ('spline_rel(self, toreal(uncalibrated_value), result)', ['__proof__']),
+            'denotes': ('is_calibration(self, toreal(uncalibrated_value), result)', ['__proof__']),
             # checked natively against the exact-rational reference (closed range, every knot, extrapolation)
             'value_exact': ('close(result, ref_spline(self.points, self.order, self.extrapolate, uncalibrated_value))',
                             ['__native__']),
         },
         raises={'CalibrationError': ('not (' + INSIDE.replace('query_point', 'uncalibrated_value') + ') and not self.extrapolate')},
+        reveal=['is_calibration'],
         modifies=[],
         native={'gen': _gen_spline, 'build': _build_spline},
     ),
@@ -158,10 +154,23 @@ CONTRACTS = [
         ensures={
             # PROVED over the reals (S3): the polynomial sum a_i * x**n_i
             'value': ('result == poly_value(self.coefficients, uncalibrated_value)', ['__proof__']),
+            'denotes': ('is_calibration(self, toreal(uncalibrated_value), result)', ['__proof__']),
             # checked natively against exact rational arithmetic (up to float rounding)
             'value_exact': ('close(result, ref_poly(self.coefficients, uncalibrated_value))', ['__native__']),
         },
+        reveal=['is_calibration'],
         modifies=[],
         native={'gen': _gen_poly, 'build': _build_poly},
+    ),
+    Contract(
+        target='xtce.calibrators.ContextCalibrator.calibrate',
+        props=['C08', 'C01'],
+        params={'self': ('rec', 'ContextCalibrator')},
+        variants={'int': {'params': {'parsed_value': 'int'}}, 'float': {'params': {'parsed_value': 'real'}}},
+        returns='real',
+        requires=['cal_ok(self.calibrator)'],
+        ensures={'relation': ('is_calibration(self.calibrator, toreal(parsed_value), result)', ['__proof__'])},
+        raises={'CalibrationError': 'cal_raises(self.calibrator, toreal(parsed_value))'},
+        modifies=[],
     ),
 ]
